@@ -53,6 +53,20 @@ def verus_verdict(tier, use_cache=True):
         vd = _verus_verdict_once(tier, use_cache, dropped, override)
         errs = [j for j in vd['res'].get('diags', []) if j.get('level') == 'error' and j.get('code')]
         if not errs:
+            if vd['res']['rc'] != 0 and not vd['res'].get('verified') and not vd['diags'] and os.path.isdir(BASELINE_SRC):
+                # verus died without a diagnostic (internal error on an unsupported construct, e.g. thread_local!): replace every
+                # module whose text differs from the baseline, so that the unchanged modules still get a verdict
+                changed = []
+                for dp, dn, fns_ in os.walk(os.path.join(REPO, 'src')):
+                    for fn_ in fns_:
+                        rel = os.path.relpath(os.path.join(dp, fn_), os.path.join(REPO, 'src'))
+                        bp = os.path.join(BASELINE_SRC, rel)
+                        if fn_.endswith('.rs') and os.path.exists(bp) and rel not in override and open(bp).read() != open(os.path.join(dp, fn_)).read():
+                            changed.append(rel)
+                if changed:
+                    for rel in changed:
+                        override[rel] = os.path.join(BASELINE_SRC, rel)
+                    continue
             break
         # rustc-level errors: the woven text does not compile.  Attribute every error span to a module.
         #  * error inside an inserted proof HINT (head/tail/after/before/loop...) of a module: drop that directive (recorded as a
